@@ -425,6 +425,19 @@ Definition callback_result {R} (cb : callbacks R) (e : event R) : option R :=
 (** [q] is strictly below [p] *)
 Definition strictly_below (p q : path) : Prop := exists x d, q = p ++ x :: d.
 
+(** document order among the things one object owns: the arguments object
+    before the body items, slots of one list by index *)
+Definition step_lt (x y : step) : Prop :=
+  match x, y with
+  | SArgs, SBody _ => True
+  | SArg i, SArg j | SBody i, SBody j | SItem i, SItem j => i < j
+  | _, _ => False
+  end.
+(** [q1] lies in a part of the document that comes before the part [q2] lies
+    in: below a common owner they descend through an earlier / a later slot *)
+Definition doc_before (q1 q2 : path) : Prop :=
+  exists c x y d1 d2, q1 = c ++ x :: d1 /\ q2 = c ++ y :: d2 /\ step_lt x y.
+
 (** * The recording visitor used by the correspondence check
 
     Every callback returns the identity of the object it was called on (kind,
